@@ -361,7 +361,11 @@ func (d *Driver) run(replay string) int {
 			if o != nil && (o.status == "assert" || o.status == "panic") {
 				if o.msg != "" && !strings.Contains(c.v.Msg, o.msg) && !strings.Contains(o.msg, c.v.Msg) {
 					// the native run is the ground truth: it fails, but at another assertion than predicted
-					c.v.Msg += " [native run of the same inputs fails with: " + o.msg + "]"
+					nm := o.msg
+					if len(nm) > 160 {
+						nm = nm[:160] + "…"
+					}
+					c.v.Msg += " [native run of the same inputs fails with: " + nm + "]"
 				}
 				confirmed = append(confirmed, c)
 			} else if (c.v.Scheduled || strings.HasPrefix(c.v.Msg, "lock discipline:")) && c.spec != nil && eng.ReplayConcrete(c.spec, c.v, Limits{MaxSteps: 20_000_000, MaxDecisions: 4000, MaxCallDepth: 400, MaxConcretize: 70}) {
